@@ -231,7 +231,7 @@ fn make_script(rng: &mut Rng, kind: u64) -> Script {
     let mut sc = make_script_base(rng, kind);
     // scripts that are bound by the message limit alone also run with a byte limit that stands for
     // "unlimited" (beyond i64::MAX): the byte count is then below its limit whatever happens
-    if matches!(kind % 7, 0 | 2) && rng.below(3) == 0 {
+    if matches!(kind % 8, 0 | 2) && rng.below(3) == 0 {
         sc.limits.1 = *[u64::MAX, (i64::MAX as u64) + 1, u64::MAX - 1][rng.below(3) as usize..].first().unwrap();
     }
     sc
@@ -239,7 +239,26 @@ fn make_script(rng: &mut Rng, kind: u64) -> Script {
 
 fn make_script_base(rng: &mut Rng, kind: u64) -> Script {
     let waiters = 1 + rng.below(3) as usize;
-    match kind % 7 {
+    match kind % 8 {
+        7 => {
+            // counts far beyond anything a mailbox holds (2^24, 2^32, 2^40 messages; 2^40 .. 2^62
+            // bytes): the counters are 64 bits wide and the limits are compared on the whole value
+            match rng.below(3) {
+                0 => {
+                    let v = [1u64 << 24, (1 << 24) + 5, 1 << 32, (1 << 40) + 1][rng.below(4) as usize];
+                    Script { muts: vec![vec![(false, 0, v - 999)]], waiters, init: (v, 10), limits: (1000, MAX_BYTES) }
+                }
+                1 => {
+                    let b = [1u64 << 40, (1 << 40) + 7, 1 << 48, 1 << 62][rng.below(4) as usize];
+                    Script { muts: vec![vec![(false, b - 100, 0)]], waiters, init: (0, b), limits: (MAX_MSGS, 1 << 20) }
+                }
+                _ => {
+                    // up to 2^24 messages and back, then one below the limit
+                    let d = (1u64 << 24) - MAX_MSGS;
+                    Script { muts: vec![vec![(true, 0, d), (false, 0, d), (false, 0, 1)]], waiters, init: (MAX_MSGS, 0), limits: (MAX_MSGS, MAX_BYTES) }
+                }
+            }
+        }
         6 => {
             // releases that overtake their acquisitions: two messages are released before they were
             // counted (the counter wraps below zero and comes back, increments and decrements
@@ -483,7 +502,7 @@ fn main() {
                     std::process::exit(1);
                 }
                 (None, Some(i)) => println!("FLOW INCONCLUSIVE {}", i),
-                _ => println!("FLOW ok script={} waiters={} parked={} polls={:?}", k % 7, script.waiters, o.parked, o.polls),
+                _ => println!("FLOW ok script={} waiters={} parked={} polls={:?}", k % 8, script.waiters, o.parked, o.polls),
             }
         }
         "native" => {
@@ -498,7 +517,7 @@ fn main() {
             let mut inconclusive = 0u64;
             let mut samples: Vec<serde_json::Value> = vec![];
             for t in 0..trials {
-                let kind = rng.below(7);
+                let kind = rng.below(8);
                 let script = make_script(&mut rng, kind);
                 let free = rng.below(2) == 0;
                 let o = run_trial_spawned(&script, &mut rng, true, free);
@@ -526,7 +545,7 @@ fn main() {
                 "episodes": trials, "nontrivial": parked_trials, "keys": keys.iter().map(|k| { let mut h: u64 = 0xcbf29ce484222325; for b in k.bytes() { h ^= b as u64; h = h.wrapping_mul(0x100000001b3); } h }).collect::<Vec<u64>>(),
                 "violations": violations, "inconclusive": if inconclusive > 0 { serde_json::json!({"flow-native: waiter neither finished nor parked within 20 s": inconclusive}) } else { serde_json::json!({}) },
                 "counters": {"trials_with_parked_waiter": parked_trials}, "minmax": {}, "samples": samples, "hooks": {}, "panics": [],
-                "rule": "native threads: per trial 1-3 waiter threads drive wait_for_available_space() with a hand-written executor while 1-2 mutator threads run a script of inc/dec (7 script kinds: releases that overtake their acquisitions while the byte limit holds the waiters; single releasing dec, two mutators freeing one dimension each, capacity churn, two mutators with add/remove pairs, two symmetric crossing decrements from a state above both limits, and a patient script in which messages are freed, taken again and bytes freed so that capacity never exists until the last step) with random spin jitter between the steps; in half of the trials the mutators are serialised by the trace wrapper (exact trace, strong spurious-resume oracle), in the other half they overlap freely (crossing inc/dec calls; logical-clock log, lower-bound spurious-resume oracle). Non-trivial: a waiter parked at least once before returning. Distinct: (script kind, waiters, script lengths, sorted poll-count vector).",
+                "rule": "native threads: per trial 1-3 waiter threads drive wait_for_available_space() with a hand-written executor while 1-2 mutator threads run a script of inc/dec (8 script kinds: counts and byte totals of 2^24 .. 2^62; releases that overtake their acquisitions while the byte limit holds the waiters; single releasing dec, two mutators freeing one dimension each, capacity churn, two mutators with add/remove pairs, two symmetric crossing decrements from a state above both limits, and a patient script in which messages are freed, taken again and bytes freed so that capacity never exists until the last step) with random spin jitter between the steps; in half of the trials the mutators are serialised by the trace wrapper (exact trace, strong spurious-resume oracle), in the other half they overlap freely (crossing inc/dec calls; logical-clock log, lower-bound spurious-resume oracle). Non-trivial: a waiter parked at least once before returning. Distinct: (script kind, waiters, script lengths, sorted poll-count vector).",
                 "exhaustive_plan": false, "truncated": false, "wall_s": t0.elapsed().as_secs_f64()
             });
             let s = serde_json::to_string(&j).unwrap();
